@@ -225,6 +225,7 @@ pub fn new_leaf(parent: Option<NodeId>, idx: usize, flavor: Flavor, l: &crate::s
                 script: l.script.clone(),
                 pos: 0,
                 always: l.always,
+                hint: l.hint,
             },
         )
     })
